@@ -1,5 +1,6 @@
 import Witverif.Abi.HostCall
 import Witverif.Abi.RustProfile
+import Witverif.Abi.RustLedger
 import Witverif.Abi.Resource
 import Drivers.Util
 import Drivers.AbiParse
@@ -22,6 +23,8 @@ separated by `|`; protocol documented in harness/bind-native/README.md.  The ima
   postfrees|<p>|<fn>|<retarea>|<dump>  model of the code: blocks the generated cabi_post_* frees
         → ok freed=<addr:size:align,…> spec=<…> skipflist=<…> | panic | stuck
   rustobserve|<T>|<VAL>                model of the code: the value Rust code observes when the host sends VAL
+  ledger|<p>|<fn>|<VALS>|<VAL or _>    model of the code (RustLedger): event counts of one export call of the stub
+        → ok hasmap=<0|1> galloc=<n> hostfree=<n> gfree=<n> postfree=<n> leak=<n>
   canon|<T>                            → rust=<0|1> bits=<0|1>
   resource|<script>                    C07: see Witverif/Abi/Resource.lean (`runScript`)
 -/
@@ -136,6 +139,19 @@ def handle (line : String) : String :=
       match parseTy t, parseVal v with
       | some t, some v => if !Spec.hasTy t v then "bad-value" else "ok " ++ showVal (RustProfile.rustObserve t v)
       | _, _ => "bad-request"
+  | ["ledger", p, f, vs, r] =>
+      match p.toNat?, parseFunc f, parseVal vs with
+      | some p, some f, some (.record vs) =>
+          let rv : Option Val := if r == "_" then none else parseVal r
+          let args := RustLedger.argsTree (paramsIndirect p f.params) f.params vs
+          let res := match f.result, rv with
+            | some t, some v => RustLedger.shape t v
+            | _, _ => RustLedger.Tree.node .plain false false []
+          let (ga, hf, gf, pf, lk) := RustLedger.exportCounts args res
+          "ok hasmap=" ++ b01 (RustLedger.hasMapAny f.params || RustLedger.hasMapOpt f.result)
+            ++ " galloc=" ++ toString ga ++ " hostfree=" ++ toString hf ++ " gfree=" ++ toString gf
+            ++ " postfree=" ++ toString pf ++ " leak=" ++ toString lk
+      | _, _, _ => "bad-request"
   | ["canon", t] =>
       match parseTy t with
       | some t => "rust=" ++ b01 (RustProfile.rustCanon t) ++ " bits=" ++ b01 (allBitsValid t)
